@@ -226,9 +226,9 @@ func extractLiteral(re *syntax.Regexp) []byte {
 	// Convert runes to bytes (assuming ASCII for now)
 	result := make([]byte, 0, len(re.Rune))
 	for _, r := range re.Rune {
-		if r > 255 {
-			// Non-ASCII literal - still valid but needs UTF-8 encoding
-			// For simplicity, encode as UTF-8
+		if r > 127 {
+			// Non-ASCII literal (U+0080 and up, not only above U+00FF): its bytes in
+			// the haystack are the UTF-8 encoding
 			buf := make([]byte, 4)
 			n := encodeRuneToBytes(r, buf)
 			result = append(result, buf[:n]...)
